@@ -67,6 +67,19 @@ def run(tier, wd):
                         continue
                     seen.add(key)
                     groups.append({"rel": "envmono", "members": [{"si": si, "env": base, "argv": line}, {"si": si, "env": sorted(base + [o]), "argv": line}]})
+    # a spec-level -- as an alternative to (or next to) an option the environment backs, positionals that look like options behind it
+    A_, O_, E_, X_, Y_ = g.Opt("-a"), g.Opt("-o"), g.Opt("-e"), g.Arg("X"), g.Arg("Y")
+    for e_ in [g.Seq(g.Alt(E_, g.End()), X_, Y_), g.Seq(g.Optional(g.Alt(O_, g.End())), g.Rep(X_)), g.Seq(g.Alt(A_, g.End()), X_, g.Optional(Y_)),
+               g.Seq(g.Optional(E_), g.Optional(g.End()), X_, Y_)]:
+        st = g.render(p, e_)
+        if st in [x["str"] for x in specs]:
+            continue
+        specs.append({"ast": e_, "str": st, "hasend": True})
+        si = len(specs) - 1
+        o = [nd["a"] for nd in g.walk(e_) if nd["k"] == "opt"][0]
+        for line in (["p0", "-x"], ["p0", "-x", "q"], ["-x", "p0"], ["p0", "--", "-x"], ["p0"], ["p0", "p1"], ["-", "-x"], ["p0", "-a"]):
+            for base in ([], ["-b"]):
+                groups.append({"rel": "envmono", "members": [{"si": si, "env": base, "argv": line}, {"si": si, "env": sorted(base + [o]), "argv": line}]})
     triples = gc.run_groups(rep, wd, binpath, [p], specs, groups, "envmono", law="monotone", only_opts=True)
     # every member is also compared with the reference under its own environment: "a required single option absent from the
     # command line is satisfied by its environment value" is a statement about each run, not about the pair
